@@ -46,12 +46,12 @@ def sym_record(eng, st, cls, name=None):
     return VRecord(cls, vals), facts
 
 
-def sym_object(eng, st, name, cls):
+def sym_object(eng, st, name, cls, fkind="bytesio"):
     fields, module = OBJECTS[cls]
     ident = f"obj!{name}!{next(_ids)}"
     cell = {"__kind__": "obj", "__class__": cls, "__module__": module}
     for f, ty in fields.items():
-        cell[f] = sym_field(eng, st, f"{name}_{f}", ty)
+        cell[f] = sym_field(eng, st, f"{name}_{f}", "file:" + fkind if ty == "file" else ty)
     st.heap[ident] = cell
     return VRef(ident, cls)
 
@@ -274,7 +274,19 @@ def construct(eng, st, target, args, kwargs, node):
         st.heap[ident] = {"__kind__": "obj", "__class__": cname, "__module__": modname, "__fresh__": True}
         ref = VRef(ident, cname)
         outs = []
+        from .calls import bind_params
+        module_, fdef_ = eng.repo.func(f"{target}.__init__")
         for s, _ in contract_call(eng, st, f"{target}.__init__", [ref] + args, kwargs, node):
+            if c.initializes:
+                bound = bind_params(eng, c, fdef_, module_, [ref] + list(args), kwargs)
+                cs = s.fork()
+                cs.env = dict(bound)
+                cs.heap = s.heap
+                cell = dict(s.heap[ident])
+                for fld, expr in c.initializes.items():
+                    cell[fld] = eng.named(s, eng.ev1(expr, cs), fld)
+                cell.pop("__fresh__", None)
+                s.heap[ident] = cell
             outs.append((s, ref))
         return outs
     raise Unsupported(f"construction of {target}")
